@@ -918,6 +918,7 @@ func main() {
 		r.HarnessError("vacuous: only %d histories executed", r.Evals.Load())
 	}
 	r.States.Store(r.Evals.Load())
+	r.Extra("wa_worker_cpu_seconds", float64(hrun.TotalWaCpuMs.Load())/1000)
 	r.Finish()
 }
 
